@@ -392,6 +392,8 @@ func c14FnLisp(w string) string {
 		return "'char-upcase"
 	case "sameparity":
 		return "(lambda (a b) (= (mod a 2) (mod b 2)))"
+	case "dir10":
+		return c14Dir10Lisp
 	case "ltthan":
 		return "(lambda (x) (< x " + arg + "))"
 	case "eqto":
@@ -461,6 +463,18 @@ var (
 
 // elements that are lists (for user lambdas that call sequence functions) and mixed atoms / nested
 // lists (for user lambdas that re-enter the enclosing call)
+// the set functions with a :test that treats its two arguments differently: list-1 holds 0..3, list-2 holds
+// 10..13, and the test `dir10` is the equivalence "same residue modulo 10" on every pair the language allows
+// the function to form (an element of list-1 first, an element of list-2 second; two elements of the same list)
+// and false on a pair (element of list-2, element of list-1): a function that hands the arguments over in the
+// wrong order finds no match at all
+var (
+	c14TXInt  = c14Type{"xint", []c14Obj{c14Int(0), c14Int(1), c14Int(2), c14Int(3)}}
+	c14TXInt2 = c14Type{"xint2", []c14Obj{c14Int(10), c14Int(11), c14Int(12), c14Int(13)}}
+)
+
+const c14Dir10Lisp = "(lambda (a b) (if (< a 10) (if (< b 10) (= a b) (= (+ a 10) b)) (if (< b 10) nil (= a b))))"
+
 var (
 	c14A, c14B  = c14Sym("a"), c14Sym("b")
 	c14TLst     = c14Type{"lst", []c14Obj{c14List(c14B), c14List(c14A, c14B), c14List(c14B, c14A, c14A), c14List(c14B, c14B)}}
@@ -481,7 +495,7 @@ func c14TypesFor(kind string) []c14Type {
 	case "fpvector":
 		return []c14Type{c14TSym, c14TInt}
 	}
-	return []c14Type{c14TSym, c14TInt, c14TPair, c14TChar, c14TIPair, c14TLst, c14TILst}
+	return []c14Type{c14TSym, c14TInt, c14TPair, c14TChar, c14TIPair, c14TLst, c14TILst, c14TXInt}
 }
 
 // keys available on an element type: wire name ("" = none) and the resulting key type
@@ -506,6 +520,9 @@ func c14Keys(t string) []c14Key {
 	case "uchar":
 		return []c14Key{{"", "char", id},
 			{"char-code", "int", func(o c14Obj) c14Obj { return c14Int(int(o.i)) }}}
+	case "xint", "xint2":
+		return []c14Key{{"", "xint", id},
+			{"1+", "xint", func(o c14Obj) c14Obj { return c14Int(int(o.i) + 1) }}}
 	case "oct":
 		return []c14Key{{"", "int", id},
 			{"1+", "int", func(o c14Obj) c14Obj { return c14Int(int(o.i) + 1) }},
@@ -628,6 +645,8 @@ func c14Tests(k string, equivOnly bool) []string {
 		return []string{"eql", "equal", "char=", "char<"}
 	case "pair", "nest", "inest":
 		return []string{"equal"}
+	case "xint":
+		return []string{"dir10"}
 	case "lst":
 		if equivOnly {
 			return []string{"equal", "seqsameset", "seqsamecount:y61"}
@@ -709,6 +728,30 @@ type c14Case struct {
 	Check   string   `json:"check"` // relation checker entry ("" = compare by equality)
 	Sweep   bool     `json:"sweep"`
 	Nontriv bool     `json:"nontrivial"`
+	// ArgsWant: for a function that must not modify its arguments, the sequence arguments (A…, B…) as they
+	// must still be after the three evaluations (the form hands them back as a fourth value)
+	ArgsWant []string `json:"args_want,omitempty"`
+	// Fresh: the language requires a newly allocated result (subseq reverse concatenate map mapcar): the
+	// harness overwrites the results and looks at the arguments once more
+	Fresh bool `json:"fresh,omitempty"`
+}
+
+// c14Destructive: the functions the language allows to destroy (or requires to modify) a sequence argument
+func c14Destructive(fn string) bool {
+	switch fn {
+	case "sort", "stable-sort", "merge", "fill", "replace", "nreverse", "nunion", "nintersection", "nset-difference":
+		return true
+	}
+	return strings.HasPrefix(fn, "delete") || strings.HasPrefix(fn, "nsubstitute")
+}
+
+// c14FreshResult: the functions whose result never shares storage with an argument
+func c14FreshResult(fn string) bool {
+	switch fn {
+	case "subseq", "reverse", "concatenate", "map", "mapcar":
+		return true
+	}
+	return false
 }
 
 // c14KwEnt: one keyword argument of the call under construction
@@ -864,6 +907,7 @@ func (b *c14Builder) done(kind, want, check string, sweep bool) c14Case {
 	var params, argsA, argsB []string
 	reqA := strings.TrimSpace("seq " + entry + " " + strings.Join(fa, " "))
 	reqB := strings.TrimSpace("seq " + entry + " " + strings.Join(fb, " "))
+	var bvs []c14Seq
 	for i, a := range b.seqs {
 		bv := a
 		if b.vary != nil {
@@ -872,6 +916,7 @@ func (b *c14Builder) done(kind, want, check string, sweep bool) c14Case {
 		if b.post != nil {
 			bv = b.post(bv)
 		}
+		bvs = append(bvs, bv)
 		params = append(params, fmt.Sprintf("s%d", i+1))
 		argsA = append(argsA, a.lisp())
 		argsB = append(argsB, bv.lisp())
@@ -893,23 +938,50 @@ func (b *c14Builder) done(kind, want, check string, sweep bool) c14Case {
 	}
 	// a user function that re-enters the form hands the scalar parameters on unchanged
 	call = strings.ReplaceAll(call, "§K§", pass)
+	// a function that is not allowed to modify its arguments: the sequences are made once, the first and the
+	// third evaluation get the very same objects, and the form hands all of them back as a fourth value
+	binds, tail := "", ""
+	var argsWant []string
+	if !c14Destructive(b.fn) && len(b.seqs) > 0 {
+		var names []string
+		for i := range b.seqs {
+			binds += fmt.Sprintf(" (a%d %s)", i+1, argsA[i])
+			names = append(names, fmt.Sprintf("a%d", i+1))
+			argsWant = append(argsWant, b.seqs[i].wire())
+			argsA[i] = fmt.Sprintf("a%d", i+1)
+		}
+		for i := range b.seqs {
+			bv := bvs[i]
+			binds += fmt.Sprintf(" (b%d %s)", i+1, argsB[i])
+			names = append(names, fmt.Sprintf("b%d", i+1))
+			argsWant = append(argsWant, bv.wire())
+			argsB[i] = fmt.Sprintf("b%d", i+1)
+		}
+		tail = " (list " + strings.Join(names, " ") + ")"
+	}
 	ca := "(funcall f " + strings.Join(argsA, " ") + ")"
 	cb := "(funcall f " + strings.Join(argsB, " ") + ")"
 	// the call form is compiled once (body of the lambda) and evaluated three times: with the arguments A,
 	// then with B (other sequences, other keyword values, other :key / :test / predicate functions — all
 	// of them parameters of the lambda), then with A again; `f` is visible in the body so that user
 	// functions can re-enter the very same form
-	src := "(let ((f nil)) (setq f (lambda (" + strings.Join(params, " ") + ") " + call + ")) (list " + ca + " " + cb + " " + ca + "))"
+	src := "(let ((f nil)" + binds + ") (setq f (lambda (" + strings.Join(params, " ") + ") " + call + ")) (list " + ca + " " + cb + " " + ca + tail + "))"
 	if b.traced {
 		// every evaluation starts with an empty log and answers (result calls-in-order)
-		src = "(let ((f nil) (log nil)) (setq f (lambda (" + strings.Join(params, " ") + ") (setq log nil) (let ((r " + call + ")) (list r (reverse log))))) (list " + ca + " " + cb + " " + ca + "))"
+		src = "(let ((f nil) (log nil)" + binds + ") (setq f (lambda (" + strings.Join(params, " ") + ") (setq log nil) (let ((r " + call + ")) (list r (reverse log))))) (list " + ca + " " + cb + " " + ca + tail + "))"
 		want += "+trace"
 	}
 	if kind == "fpvector" {
 		kind = "vector+fp"
 	}
-	return c14Case{Fn: b.fn, Kind: kind, Keys: keys, Src: src, Call: call + " with " + strings.Join(argsA, " ") + " / " + strings.Join(argsB, " "), Req: reqA, ReqB: reqB, Want: want, Check: check, Sweep: sweep}
+	callTxt := call + " with " + strings.Join(argsA, " ") + " / " + strings.Join(argsB, " ")
+	if binds != "" {
+		callTxt += " where" + binds
+	}
+	return c14Case{Fn: b.fn, Kind: kind, Keys: keys, Src: src, Call: callTxt, Req: reqA, ReqB: reqB, Want: want, Check: check, Sweep: sweep,
+		ArgsWant: argsWant, Fresh: len(argsWant) > 0 && c14FreshResult(b.fn)}
 }
+
 
 // chooser: how keyword values and operands are picked. The sweep enumerates (deterministic product),
 // the composite generator draws from the PRNG.
@@ -1213,7 +1285,14 @@ func c14Build(f c14Fun, kind string, t c14Type, seqLen int, use []string, p c14P
 	}
 	use = use2
 	sigKind := kind
-	if otherKind != "" {
+	same := otherKind == "same" // replace: sequence-1 and sequence-2 are the same object (overlapping regions)
+	if same {
+		if f.fam != "replace" || kind == "fpvector" || !c14KindHolds(kind, t) {
+			return c14Case{}, false
+		}
+		otherKind = kind
+		sigKind = kind + "<-same"
+	} else if otherKind != "" {
 		if !(f.fam == "search" || f.fam == "mismatch" || f.fam == "replace") || otherKind == kind || !c14KindHolds(otherKind, t) || !c14KindHolds(kind, t) {
 			return c14Case{}, false
 		}
@@ -1233,7 +1312,7 @@ func c14Build(f c14Fun, kind string, t c14Type, seqLen int, use []string, p c14P
 		}
 	}
 	kind1, kind2 := kind, kind
-	if otherKind != "" {
+	if otherKind != "" && !same {
 		if f.fam == "replace" {
 			kind2 = otherKind
 		} else {
@@ -1254,6 +1333,9 @@ func c14Build(f c14Fun, kind string, t c14Type, seqLen int, use []string, p c14P
 			return c14Case{}, false
 		}
 	} else if t.name == "nest" || t.name == "inest" {
+		return c14Case{}, false
+	}
+	if t.name == "xint" && f.fam != "set" {
 		return c14Case{}, false
 	}
 	// the variant B of a sequence parameter for the third evaluation of the call form: same kind and
@@ -1574,7 +1656,14 @@ func c14Build(f c14Fun, kind string, t c14Type, seqLen int, use []string, p c14P
 			s2 = c14RandomSeq(p, t, kind2, p.n(7))
 		}
 		b.seq("seq", s1)
-		b.seq("seq2", s2)
+		if same {
+			// the parameter s1 of the form is both sequences; "as if the entire source region were copied first"
+			s2 = s1
+			b.pos = append(b.pos, "s1")
+			b.fields = append(b.fields, "seq2={1}")
+		} else {
+			b.seq("seq2", s2)
+		}
 		c14Bounds(b, p, use, "start1", "end1", len(s1.elems), sweep)
 		c14Bounds(b, p, use, "start2", "end2", len(s2.elems), sweep)
 		return b.done(sigKind, "seq", "", sweep), true
@@ -1639,10 +1728,14 @@ func c14Build(f c14Fun, kind string, t c14Type, seqLen int, use []string, p c14P
 	case "set":
 		s1 := mkSeq(seqLen)
 		var s2 c14Seq
+		t2 := t
+		if t.name == "xint" {
+			t2 = c14TXInt2 // list-2 over 10..13
+		}
 		if sweepSeqs {
-			s2 = c14SweepSeq(t, kind, p)
+			s2 = c14SweepSeq(t2, kind, p)
 		} else {
-			s2 = c14RandomSeq(p, t, kind, p.n(6))
+			s2 = c14RandomSeq(p, t2, kind, p.n(6))
 		}
 		b.seq("seq", s1)
 		b.seq("seq2", s2)
@@ -1976,7 +2069,7 @@ func c14SelfOK(f c14Fun, role string) bool {
 }
 
 func c14TypeByName(n string) c14Type {
-	for _, t := range []c14Type{c14TSym, c14TInt, c14TChar, c14TUChar, c14TOct, c14TPair, c14TIPair, c14TLst, c14TILst, c14TNest, c14TINest} {
+	for _, t := range []c14Type{c14TSym, c14TInt, c14TChar, c14TUChar, c14TOct, c14TPair, c14TIPair, c14TLst, c14TILst, c14TNest, c14TINest, c14TXInt, c14TXInt2} {
 		if t.name == n {
 			return t
 		}
@@ -2157,6 +2250,9 @@ type c14Obs struct {
 	class string
 	msg   string
 	fault bool
+	// the sequence arguments after the evaluations (functions that must not modify them), and once more
+	// after the harness has overwritten the results (functions whose result must be newly allocated)
+	args, argsClobbered []string
 }
 
 func c14Impl(scope *slip.Scope, cs c14Case) c14Obs {
@@ -2165,21 +2261,90 @@ func c14Impl(scope *slip.Scope, cs c14Case) c14Obs {
 		return c14Obs{class: o.Class, msg: o.Msg, fault: o.GoFault}
 	}
 	l, _ := o.Value.(slip.List)
-	if len(l) != 3 {
-		return c14Obs{class: "harness", msg: "the re-evaluation form did not return three results: " + o.Text}
+	nres := 3
+	if len(cs.ArgsWant) > 0 {
+		nres = 4
+	}
+	if len(l) != nres {
+		return c14Obs{class: "harness", msg: "the re-evaluation form did not return its results: " + o.Text}
 	}
 	obs := c14Obs{ok: true}
-	for _, v := range l {
+	for _, v := range l[:3] {
 		obs.wires = append(obs.wires, c14Wire(v, cs.Want))
 	}
 	obs.wire = obs.wires[0]
+	if nres == 4 {
+		// the sequence arguments after the three evaluations
+		al, _ := l[3].(slip.List)
+		argWires := func() []string {
+			var out []string
+			for _, a := range al {
+				out = append(out, c14Wire(a, "seq"))
+			}
+			return out
+		}
+		obs.args = argWires()
+		if cs.Fresh {
+			// a result that must be newly allocated: overwrite every element of the three results (the wire terms
+			// are taken) and look at the arguments once more
+			for _, v := range l[:3] {
+				if strings.HasSuffix(cs.Want, "+trace") {
+					if pair, _ := v.(slip.List); len(pair) == 2 {
+						v = pair[0]
+					}
+				}
+				c14Clobber(v)
+			}
+			obs.argsClobbered = argWires()
+		}
+	}
 	return obs
+}
+
+// c14Clobber overwrites the elements of a sequence object in place (only the harness does this, after
+// the comparison terms were built)
+func c14Clobber(v slip.Object) {
+	switch tv := v.(type) {
+	case slip.List:
+		for i := range tv {
+			tv[i] = slip.Symbol("clobbered")
+		}
+	case *slip.Vector:
+		for i := range tv.AsList() {
+			tv.Set(slip.Symbol("clobbered"), i)
+		}
+	case slip.Octets:
+		for i := range tv {
+			tv[i] = 255
+		}
+	}
+}
+
+// c14ArgsAspect: the arguments of a function that must leave them alone
+func c14ArgsAspect(cs c14Case, obs c14Obs) string {
+	if !obs.ok || len(cs.ArgsWant) == 0 {
+		return ""
+	}
+	if strings.Join(obs.args, " ") != strings.Join(cs.ArgsWant, " ") {
+		return "argument-modified"
+	}
+	if cs.Fresh && strings.Join(obs.argsClobbered, " ") != strings.Join(cs.ArgsWant, " ") {
+		return "result-shares-storage"
+	}
+	return ""
 }
 
 func (o c14Obs) String() string {
 	if o.ok {
 		if len(o.wires) == 3 {
-			return "ok " + o.wire + "   [calls 1..3: " + strings.Join(o.wires, " | ") + "]"
+			t := "ok " + o.wire + "   [calls 1..3: " + strings.Join(o.wires, " | ") + "]"
+			if len(o.args) > 0 {
+				t += " [arguments afterwards: " + strings.Join(o.args, " ") + "]"
+			}
+			if len(o.argsClobbered) > 0 {
+				t += " [arguments after the results were overwritten: " + strings.Join(o.argsClobbered, " ") + "]"
+			}
+			return t
 		}
 		return "ok " + o.wire
 	}
@@ -2213,7 +2378,8 @@ func c14AspectAll(cs c14Case, obs c14Obs, modelA, modelB string, checks [3]strin
 			return a, j
 		}
 	}
-	return "", 0
+	// all three results are right: the arguments must be what they were
+	return c14ArgsAspect(cs, obs), 3
 }
 
 // c14Aspect compares one observation with the model reply; "" = agreement
@@ -2325,6 +2491,12 @@ func c14Replay(c *lib.Ctx) {
 			cs.Keys = append(cs.Keys, fmt.Sprint(k))
 		}
 	}
+	if ws, ok := raw["args_want"].([]any); ok {
+		for _, w := range ws {
+			cs.ArgsWant = append(cs.ArgsWant, fmt.Sprint(w))
+		}
+	}
+	cs.Fresh, _ = raw["fresh"].(bool)
 	obs := c14Impl(slip.NewScope(), cs)
 	models := c.Model([]string{cs.Req, cs.ReqB})
 	checks := c14Checks(c, cs, obs, models[0], models[1])
@@ -2337,6 +2509,9 @@ func c14Replay(c *lib.Ctx) {
 	fmt.Printf("  model (A)     : %s   = %s\n  model (B)     : %s   = %s\n", models[0], c14Pretty(models[0]), models[1], c14Pretty(models[1]))
 	if cs.Check != "" {
 		fmt.Printf("  relation %s on the implementation's results: %v\n", cs.Check, checks)
+	}
+	if len(cs.ArgsWant) > 0 {
+		fmt.Printf("  arguments that must be unchanged afterwards: %s\n", strings.Join(cs.ArgsWant, " "))
 	}
 	if a, _ := c14AspectAll(cs, obs, models[0], models[1], checks); a != "" {
 		c.Report(c14Signature(cs, a), false, map[string]any{"input": cs.Call, "observed": obs.String(), "expected": models[0] + " | " + models[1] + " | " + models[0]})
@@ -2396,6 +2571,16 @@ func runC14(c *lib.Ctx) {
 					}
 				}
 				// the two sequences of search / mismatch / replace are of different kinds
+				if f.fam == "replace" && kind != "fpvector" {
+					// the same object as source and target: every keyword and every pair of keywords
+					subsets = append(subsets, []string{"other:same"})
+					for i, a := range f.kws {
+						subsets = append(subsets, []string{"other:same", a})
+						for _, b2 := range f.kws[i+1:] {
+							subsets = append(subsets, []string{"other:same", a, b2})
+						}
+					}
+				}
 				if f.fam == "search" || f.fam == "mismatch" || f.fam == "replace" {
 					for _, ok := range c14Kinds4 {
 						if ok == kind || kind == "fpvector" || !c14KindHolds(ok, t) {
@@ -2412,7 +2597,7 @@ func runC14(c *lib.Ctx) {
 					// characters on strings, octets; pair types when :key is one of the two); the other
 					// element types (and vectors with a fill pointer) are swept with at most one keyword
 					if len(use) == 2 && !strings.Contains(use[0], ":") && use[0] != "trace" && use[0] != "spread" {
-						plain := (t.name == "sym" || t.name == "int" || t.name == "char" || t.name == "oct") && kind != "fpvector"
+						plain := (t.name == "sym" || t.name == "int" || t.name == "char" || t.name == "oct" || t.name == "xint") && kind != "fpvector"
 						keyed := c14Has(use, "key") && (t.name == "pair" || t.name == "ipair")
 						if !plain && !keyed {
 							continue
@@ -2421,6 +2606,8 @@ func runC14(c *lib.Ctx) {
 					// the new sequence kinds are swept with fewer value combinations per cell
 					limit := 400
 					switch {
+					case len(use) > 0 && use[0] == "other:same":
+						limit = 400
 					case len(use) > 0 && strings.HasPrefix(use[0], "other:"):
 						limit = 40
 					case len(use) > 0 && use[0] == "spread":
@@ -2549,6 +2736,8 @@ func runC14(c *lib.Ctx) {
 		}
 		if (f.fam == "search" || f.fam == "mismatch" || f.fam == "replace") && kind != "fpvector" && c.Rng.Chance(35) {
 			use = append(use, "other:"+c14Kinds4[c.Rng.Intn(len(c14Kinds4))])
+		} else if f.fam == "replace" && kind != "fpvector" && c.Rng.Chance(40) {
+			use = append(use, "other:same")
 		}
 		if c.Rng.Chance(20) && kind != "string" {
 			// a user function that re-enters the call itself, on nested lists
@@ -2661,8 +2850,18 @@ func runC14(c *lib.Ctx) {
 			expected = "any result accepted by " + cs.Check + ", e.g. " + m
 		}
 		ow := obs[i].String()
-		if obs[i].ok {
+		if obs[i].ok && j < 3 {
 			ow = "ok " + obs[i].wires[j]
+		}
+		if j == 3 {
+			// the results are right, an argument is not what it was
+			got := obs[i].args
+			if a == "result-shares-storage" {
+				got = obs[i].argsClobbered
+			}
+			ow, m = "ok "+strings.Join(got, " "), "ok "+strings.Join(cs.ArgsWant, " ")
+			expected = "the sequence arguments unchanged: " + strings.Join(cs.ArgsWant, " ")
+			from = "model: the functions of Model/Seq.lean are functions of their arguments (no argument is modified); " + cs.Fn + " is not one of the destructive functions"
 		}
 		c.Report(c14Signature(cs, a), cs.Sweep, map[string]any{"input": cs.Call, "case": cs, "observed": obs[i].String(),
 			"expected": expected, "failing_call": j + 1, "observed_lisp": c14Pretty(ow), "expected_lisp": c14Pretty(m),
